@@ -142,6 +142,31 @@ impl<K: Eq + Hash, V> DashMap<K, V> {
         sched::point("map_get_mut");
         self.0.get_mut(key)
     }
+    /// The non-blocking lookups report `Locked` whenever the shard is write-locked by somebody else:
+    /// under the controller that is a choice, offered while another controlled thread is unfinished
+    /// (the shim's operations are atomic, so the lock is never observed held otherwise).
+    pub fn try_get<Q>(&self, key: &Q) -> dashmap::try_result::TryResult<dashmap::mapref::one::Ref<'_, K, V>>
+    where
+        K: std::borrow::Borrow<Q>,
+        Q: Hash + Eq + ?Sized,
+    {
+        sched::point("map_try_get");
+        if sched::contended() {
+            return dashmap::try_result::TryResult::Locked;
+        }
+        self.0.try_get(key)
+    }
+    pub fn try_get_mut<Q>(&self, key: &Q) -> dashmap::try_result::TryResult<dashmap::mapref::one::RefMut<'_, K, V>>
+    where
+        K: std::borrow::Borrow<Q>,
+        Q: Hash + Eq + ?Sized,
+    {
+        sched::point("map_try_get_mut");
+        if sched::contended() {
+            return dashmap::try_result::TryResult::Locked;
+        }
+        self.0.try_get_mut(key)
+    }
     pub fn insert(&self, key: K, value: V) -> Option<V> {
         sched::point("map_insert");
         self.0.insert(key, value)
